@@ -10,6 +10,7 @@
 From Coq Require Import String List Arith Bool ZArith Permutation.
 Import ListNotations.
 From NP Require Import Base Values Arrow Frame Proofs_Pack Proofs_Sort.
+From NP Require Import Targets Proofs_Targets.
 
 Theorem C11_permutes_within_rows : forall sorter rows,
   Permutation (sorter (m_ordinal_flat rows)) (m_ordinal_flat rows) ->
@@ -47,6 +48,25 @@ Theorem C11_sorted_implies_ordinals_ascending : forall rec_le t,
   sorted_flat rec_le t = true -> is_mono_inc (map fst t) = true.
 Proof. exact sorted_flat_mono. Qed.
 Print Assumptions C11_sorted_implies_ordinals_ascending.
+
+(* which layer sort_values works on and which flags it hands to the engine (Targets.v): the keys name one layer or the
+   call is refused; for a nested layer the ordinal row number leads, ascending, followed by the requested direction of
+   every key *)
+Theorem C11_target_sound : forall keys l, m_sort_target keys = Ok l -> keys <> [] /\ forall k, In k keys -> k = l.
+Proof. exact sort_target_sound. Qed.
+Print Assumptions C11_target_sound.
+
+Theorem C11_target_refused : forall keys,
+  m_sort_target keys = Err <-> (keys = [] \/ exists a b, In a keys /\ In b keys /\ a <> b).
+Proof. exact sort_target_refused. Qed.
+Print Assumptions C11_target_refused.
+
+Theorem C11_ascending_flags : forall a n,
+  match a with AscList bs => length bs = n | AscBool _ => True end ->
+  length (m_sort_ascending a n) = S n /\ hd false (m_sort_ascending a n) = true /\
+  forall j, j < n -> nth (S j) (m_sort_ascending a n) false = match a with AscBool b => b | AscList bs => nth j bs false end.
+Proof. exact sort_ascending_spec. Qed.
+Print Assumptions C11_ascending_flags.
 
 Example C11_nonvacuous :
   let le := rec_le_keys [(VInt 1, 1%Z); (VInt 2, 2%Z); (VInt 3, 3%Z)] true [(0, false)] in
